@@ -35,7 +35,18 @@ static void* val_ptr(const char* name) {
   return vals[nvals++];
 }
 
+/* count_base (scenario parameter, a multiple of the capacity): both counters start there and are
+ * rendered relative to it, so that a run can cross the 2^32 boundary of the 64-bit tickets */
+static unsigned long long g_count_base;
+static void dec_high(const void* base, char* out, size_t cap) {
+  snprintf(out, cap, "%lld", (long long)((unsigned long long)((const lockfree_ring_buffer_t*)base)->high - g_count_base));
+}
+static void dec_low(const void* base, char* out, size_t cap) {
+  snprintf(out, cap, "%lld", (long long)((unsigned long long)((const lockfree_ring_buffer_t*)base)->low - g_count_base));
+}
 static void drv_setup(void) {
+  const char* cb0 = t_param("count_base");
+  g_count_base = cb0 ? strtoull(cb0, NULL, 10) : 0;
   const char* p = t_param("power");
   int power = p ? atoi(p) : 1;
   if (power < 1 || power > 4) {
@@ -44,13 +55,25 @@ static void drv_setup(void) {
   }
   rb = lockfree_ring_buffer_create((uint32_t)power);
   uint32_t size = rb->size;
-  static vrt_field_t f[2 + 16];
+  static vrt_field_t f[4 + 16];
   static char names[16][8];
-  f[0] = (vrt_field_t){"high", offsetof(lockfree_ring_buffer_t, high), 8, VD_U64, 0, 0};
-  f[1] = (vrt_field_t){"low", offsetof(lockfree_ring_buffer_t, low), 8, VD_U64, 0, 0};
+  int nb = 2;
+  if (g_count_base) {
+    rb->high = g_count_base;
+    rb->low = g_count_base;
+    /* low bytes keep the accesses scheduling points; the values are rendered relative to the base */
+    f[0] = (vrt_field_t){"highb", offsetof(lockfree_ring_buffer_t, high), 1, VD_U8, VF_NOEPOCH, 0};
+    f[1] = (vrt_field_t){"lowb", offsetof(lockfree_ring_buffer_t, low), 1, VD_U8, VF_NOEPOCH, 0};
+    f[2] = (vrt_field_t){"high", 0, 0, VD_CUSTOM, 0, dec_high};
+    f[3] = (vrt_field_t){"low", 0, 0, VD_CUSTOM, 0, dec_low};
+    nb = 4;
+  } else {
+    f[0] = (vrt_field_t){"high", offsetof(lockfree_ring_buffer_t, high), 8, VD_U64, 0, 0};
+    f[1] = (vrt_field_t){"low", offsetof(lockfree_ring_buffer_t, low), 8, VD_U64, 0, 0};
+  }
   for (uint32_t i = 0; i < size; i++) {
     snprintf(names[i], sizeof names[i], "s%u", i);
-    f[2 + i] = (vrt_field_t){names[i], offsetof(lockfree_ring_buffer_t, buffer) + i * sizeof(void*), 8, VD_PTR, 0, 0};
+    f[nb + i] = (vrt_field_t){names[i], offsetof(lockfree_ring_buffer_t, buffer) + i * sizeof(void*), 8, VD_PTR, 0, 0};
   }
   /* pre-register every value name used by the scripts (registration is not thread safe) */
   for (int t = 0; t < t_nthreads; t++)
@@ -59,7 +82,7 @@ static void drv_setup(void) {
       if (!strcmp(t_ops[t][i].op, "push") || !strcmp(t_ops[t][i].op, "pushb")) val_ptr(t_ops[t][i].a1);
       if (strcmp(t_ops[t][i].op, "wait")) total_ops++;
     }
-  vrt_reg_obj("rb", rb, sizeof(lockfree_ring_buffer_t) + size * sizeof(void*), f, 2 + (int)size);
+  vrt_reg_obj("rb", rb, sizeof(lockfree_ring_buffer_t) + size * sizeof(void*), f, nb + (int)size);
 }
 
 /* The runtime parks a thread that calls cpu_relax() (the blocking push/pop do) until some other
